@@ -4,4 +4,4 @@ set -e
 cd "$(dirname "$0")"
 python3 harness/extract.py 2>/dev/null || true
 cd lean
-lake build SuitVerif driver
+lake build SuitVerif SuitVerif.AuditCmd driver
